@@ -40,11 +40,17 @@ HDR2K = {k[1] + "_RAW": k[0] for k in KINDS}
 SAVABLE = ["KSol", "KPP", "KExch", "KSurf", "KGas", "KSS"]
 DEFERRED = ["KSol", "KPP", "KExch", "KSurf", "KSS", "KGas", "KKin"]     # range copies made in tidy_*, after all input is read
 REACTANT = ["KSol", "KRxn", "KPP", "KExch", "KSurf", "KGas", "KSS", "KKin"]
-ELS = ["Na", "K", "Ca", "Mg", "Sr", "Cl", "C", "S"]
+ELS = ["Na", "K", "Ca", "Mg", "Sr", "Cl", "C", "S", "N", "F", "B", "P", "Si", "Fe", "Ba", "Br", "Pb", "Cd", "Cu"]
+# element symbols that are a proper prefix of other element symbols of phreeqc.dat (C/Ca/Cl/Cd/Cu, N/Na, S/Si/Sr,
+# F/Fe, B/Ba/Br, P/Pb): SOLUTION_MODIFY -totals / -activities by such a name must leave the longer ones alone
+PREFIX_ELS = {"C": ["Ca", "Cl", "Cd", "Cu"], "N": ["Na"], "S": ["Si", "Sr"], "F": ["Fe"], "B": ["Ba", "Br"], "P": ["Pb"]}
 PHASES = {"Calcite": ["Ca", "C"], "Gypsum": ["Ca", "S"], "Strontianite": ["Sr", "C"], "Celestite": ["Sr", "S"],
-          "Dolomite": ["Ca", "Mg", "C"], "Aragonite": ["Ca", "C"], "CO2(g)": ["C"]}
-SALTS = [("Na", 1, "Cl", 1), ("K", 1, "Cl", 1), ("Ca", 1, "Cl", 2), ("Mg", 1, "Cl", 2), ("Sr", 1, "Cl", 2), ("Na", 2, "S(6)", 1)]
-RATES = "RATES\nc14rate\n-start\n10 SAVE 1e-9*TIME\n-end\n"
+          "Dolomite": ["Ca", "Mg", "C"], "Aragonite": ["Ca", "C"], "CO2(g)": ["C"], "N2(g)": ["N"],
+          "Sepiolite": ["Mg", "Si"], "Sepiolite(d)": ["Mg", "Si"]}
+SALTS = [("Na", 1, "Cl", 1), ("K", 1, "Cl", 1), ("Ca", 1, "Cl", 2), ("Mg", 1, "Cl", 2), ("Sr", 1, "Cl", 2), ("Na", 2, "S(6)", 1),
+         ("Ba", 1, "Cl", 2), ("Na", 1, "Br", 1), ("Na", 1, "F", 1), ("Fe", 1, "Cl", 2), ("Ca", 1, "Cl", 2), ("Na", 1, "Cl", 1)]
+EXTRA_SOL = [("Si", 0.2), ("C(4)", 0.5), ("Sr", 0.05), ("Ba", 0.02), ("Pb", 0.001), ("Cd", 0.001), ("Cu", 0.001), ("Br", 0.05)]
+RATES = "RATES\nc14rate\n-start\n10 SAVE 1e-9*TIME\n-end\nc14rate2\n-start\n10 SAVE 2e-9*TIME\n-end\n"
 
 
 # ----------------------------------------------------------------------------- T-gen
@@ -113,22 +119,45 @@ class Gen:
         if kind == "KSol":
             cat, nc, an, na = r.choice(SALTS)
             c = round(0.5 + 3 * u, 6)
+            if cat == "Fe":
+                c = round(0.02 + 0.05 * u, 6)
             body = " temp %s\n %s %.6f\n %s %.6f\n" % (round(20 + 10 * u, 4), cat, c * nc, an, c * na)
+            els = {cat, an.split("(")[0]}
+            for e, amt in r.sample(EXTRA_SOL, r.choice([0, 0, 1, 1, 2])):
+                if e.split("(")[0] not in els:
+                    body += " %s %.6f\n" % (e, amt * (0.5 + u))
+                    els.add(e.split("(")[0])
+            tmpl["els"] = sorted(els)
         elif kind == "KPP":
-            ph = r.choice(["Calcite", "Gypsum", "Strontianite", "Celestite", "Dolomite"])
-            tmpl["phase"] = ph
-            body = " %s 0 %.6f\n" % (ph, 0.01 + 0.05 * u)
+            phs = [r.choice(["Calcite", "Gypsum", "Strontianite", "Celestite", "Dolomite"])]
+            if r.random() < 0.35:
+                phs += r.choice([["Sepiolite", "Sepiolite(d)"], ["Sepiolite(d)"], ["Gypsum"], ["Calcite", "Celestite"]])
+            phs = list(dict.fromkeys(phs))
+            tmpl["phases"] = phs
+            body = "".join(" %s 0 %.6f\n" % (ph, 0.01 + 0.05 * u + 0.003 * j) for j, ph in enumerate(phs))
         elif kind == "KExch":
-            sp = r.choice(["NaX", "KX", "CaX2", "MgX2"])
-            body = " %s %.6f\n" % (sp, 0.01 + 0.05 * u)
+            sps = r.sample(["NaX", "KX", "CaX2", "MgX2"], r.choice([1, 1, 2]))
+            body = "".join(" %s %.6f\n" % (sp, 0.01 + 0.05 * u + 0.002 * j) for j, sp in enumerate(sps))
         elif kind == "KSurf":
             body = " Hfo_w %.6f 600 1\n" % (0.0005 + 0.001 * u)
+            if r.random() < 0.3:
+                body += " Hfo_s %.6f\n" % (0.00005 + 0.0001 * u)
         elif kind == "KSS":
             body = " CaSr\n -comp Calcite %.6f\n -comp Strontianite %.6f\n" % (0.01 + 0.05 * u, 0.001 + 0.005 * u)
         elif kind == "KGas":
             body = " -fixed_pressure\n -pressure 1\n -volume 1\n CO2(g) %.6f\n" % (0.001 + 0.01 * u)
+            tmpl["comps"] = ["CO2(g)"]
+            if r.random() < 0.3:
+                body += " N2(g) %.6f\n" % (0.5 + 0.3 * u)
+                tmpl["comps"].append("N2(g)")
         elif kind == "KKin":
-            body = "c14rate\n -formula NaCl 1\n -m %.6f\n -m0 %.6f\n -steps 10 in 1\n" % (1 + u, 1 + u)
+            body = "c14rate\n -formula NaCl 1\n -m %.6f\n -m0 %.6f\n" % (1 + u, 1 + u)
+            tmpl["comps"] = ["c14rate"]
+            if r.random() < 0.4:
+                # a second component whose name has the first one as a prefix
+                body += "c14rate2\n -formula KCl 1\n -m %.6f\n -m0 %.6f\n" % (2 + u, 2 + u)
+                tmpl["comps"].append("c14rate2")
+            body += " -steps 10 in 1\n"
         elif kind == "KMix":
             sols = self.existing("KSol", 0) or [1]
             a = r.choice(sols)
@@ -166,7 +195,7 @@ class Gen:
 
     def modification(self):
         r = self.rng
-        kinds = [k for k in ["KSol", "KSol", "KPP", "KGas", "KKin", "KSurf", "KRxn", "KSS", "KExch"] if self.mirror[k]]
+        kinds = [k for k in ["KSol", "KSol", "KSol", "KPP", "KGas", "KKin", "KSurf", "KRxn", "KSS", "KExch"] if self.mirror[k]]
         if not kinds:
             return None
         kind = r.choice(kinds)
@@ -176,22 +205,67 @@ class Gen:
             n = self.num(kind)                 # possibly absent: warning, no change
         else:
             n = r.choice(self.existing(kind))
-        pre = ""
-        if kind == "KPP":
-            ph = self.mirror[kind].get(n, {}).get("phase", "Calcite")
-            pre = " -component %s\n " % ph
-            field, val = r.choice([("-moles", round(0.02 + 0.1 * u, 6)), ("-si", round(-0.5 + u, 4))])
-        elif kind == "KSS":
-            pre = " -solid_solution CaSr\n "
-            field, val = "-tk", round(290 + 20 * u, 3)
-        elif kind == "KExch":
-            field, val = "-exchange_gammas", r.choice([0, 1])
+        tm = self.mirror[kind].get(n, {})
+        sel, extra = [], {}
+        if kind == "KSol" and r.random() < 0.55:
+            # element totals / master activities by name; prefer a symbol that is a proper prefix of an
+            # element the solution holds (C with Ca/Cl, N with Na, S with Sr/Si, F with Fe, B with Ba/Br, P with Pb)
+            els = tm.get("els") or ["Na", "Cl", "Ca"]
+            hits = [p for p, longer in PREFIX_ELS.items() if any(e in els for e in longer)]
+            x = r.random()
+            if hits and x < 0.55:
+                name = r.choice(hits)
+            elif x < 0.75:
+                name = r.choice(list(PREFIX_ELS))
+            elif x < 0.9:
+                name = r.choice(els + ["K", "Mg", "Si", "Sr", "Ba", "Br", "Fe", "Pb", "Cd", "Cu", "Na", "Ca", "Cl"])
+            else:
+                name = r.choice(["C(4)", "S(6)", "N(5)", "N(-3)", "Fe(2)", "C(-4)"])
+            if r.random() < 0.7:
+                section, val = "-totals", float("%.6e" % (1e-4 + 9e-4 * u))
+            else:
+                section, val = "-activities", round(-6 + 3 * u, 5)
+            field = name
+            extra = {"section": section}
+            text = "%s_MODIFY %d\n %s\n   %s %s\n" % (KW[kind], n, section, name, val)
+            if section == "-totals":
+                if n in self.mirror[kind]:
+                    self.mirror[kind][n] = dict(tm, els=sorted(set(els) | {name.split("(")[0]}))
         else:
-            field, f = r.choice(self.MODS[kind])
-            val = f(u)
-        text = "%s_MODIFY %d\n%s %s %s\n" % (KW[kind], n, pre, field, val)
-        self.count("modify:" + kind)
-        return {"op": "mod", "kind": kind, "n": n, "id": mid, "field": field, "value": val, "text": text}
+            if kind == "KPP":
+                ph = r.choice(tm.get("phases") or ["Calcite"])
+                sel = [("-component", ph)]
+                field, val = r.choice([("-moles", round(0.02 + 0.1 * u, 6)), ("-si", round(-0.5 + u, 4))])
+            elif kind == "KSS":
+                sel = [("-solid_solution", "CaSr")]
+                if r.random() < 0.5:
+                    field, val = "-tk", round(290 + 20 * u, 3)
+                else:
+                    sel.append(("-component", r.choice(["Calcite", "Strontianite"])))
+                    field, val = "-moles", round(0.01 + 0.05 * u, 6)
+            elif kind == "KExch":
+                # component-level EXCHANGE_MODIFY is kept out of the random histories: FINDING exchange-modify-component
+                field, val = "-exchange_gammas", r.choice([0, 1])
+            elif kind == "KGas" and r.random() < 0.4:
+                sel = [("-component", r.choice(tm.get("comps") or ["CO2(g)"]))]
+                field, val = "-moles", float("%.6e" % (1e-4 + 1e-3 * u))
+            elif kind == "KKin" and r.random() < 0.5:
+                sel = [("-component", r.choice(tm.get("comps") or ["c14rate"]))]
+                field, val = r.choice([("-m", round(0.5 + u, 6)), ("-tol", float("%.3e" % (1e-8 * (1 + 8 * u))))])
+            elif kind == "KSurf" and r.random() < 0.4:
+                sel = [("-component", "Hfo_w")]
+                field, val = "-la", round(0.1 + u, 5)
+            else:
+                field, f = r.choice(self.MODS[kind])
+                val = f(u)
+            text = "%s_MODIFY %d\n" % (KW[kind], n)
+            for d, (o, a) in enumerate(sel):
+                text += " " * (d + 1) + "%s %s\n" % (o, a)
+            text += " " * (len(sel) + 1) + "%s %s\n" % (field, val)
+        self.count("modify:" + kind + (":" + extra["section"] if extra else (":component" if sel else "")))
+        m = {"op": "mod", "kind": kind, "n": n, "id": mid, "field": field, "value": val, "text": text, "sel": sel}
+        m.update(extra)
+        return m
 
     # ---- USE / SAVE
     def reaction(self):
@@ -921,9 +995,9 @@ def check_store(i, where, blocks, dup, mstore, id2fp, fp2id, prev_blocks, prev_m
                 raise Mismatch("content-same", i, "%s: %s %d should differ from an entity defined by another text but the dumps are identical" % (where, key[0], key[1]))
             stats["soft_same_fp"] = stats.get("soft_same_fp", 0) + 1
         fp2id.setdefault(fp, cid)
-    # *_MODIFY: only the named quantity of the named entry changes (checked when nothing else in the
-    # simulation can touch that entry)
-    if prev_blocks is not None and not st["react"] and not st["cells"] and not st["mixes"] and not st["copies"]:
+    # *_MODIFY: only the named quantities of the named entry change: every other (path, name, value) entry of
+    # its DUMP block is byte-identical (checked when nothing else in the simulation can touch that entry)
+    if prev_blocks is not None and not st["react"] and not st["cells"] and not st["mixes"]:
         for x in st["reads"]:
             if x["op"] != "mod":
                 continue
@@ -932,15 +1006,23 @@ def check_store(i, where, blocks, dup, mstore, id2fp, fp2id, prev_blocks, prev_m
                 continue
             if any(y["op"] == "def" and y["kind"] == x["kind"] and y["n"] <= x["n"] <= y["n_end"] for y in st["reads"]):
                 continue
+            if any((c["cell"] or c["kind"] == x["kind"]) and c["lo"] <= x["n"] <= c["hi"] for c in st["copies"]):
+                continue
             if mstore.get(key, (0, 0))[1] != expected_mod_id(x, prev_model[key][1]):
                 raise Mismatch("harness", i, "internal: model content id of a modified entry is not modify(d, base)")
-            # multiset difference: *_MODIFY re-reads the entity, which may re-sort its components
-            d = diff_multiset(drop_derived(x["kind"], prev_blocks[key]), drop_derived(x["kind"], blocks[key]))
-            bad = [l for l in d if l[1:].split() and l[1:].split()[0] not in (x["field"], "-new_def")]
+            before = entries(drop_derived(x["kind"], prev_blocks[key]))
+            after = entries(drop_derived(x["kind"], blocks[key]))
+            changed = sorted({k for k, _v in list((before - after).elements()) + list((after - before).elements())})
+            bad = [k for k in changed if not mod_allows(x, k, before)]
             if bad:
-                raise Mismatch("modify-touches-other", i, "%s_MODIFY %d %s changed other quantities: %s" % (KW[x["kind"]], x["n"], x["field"], bad[:4]),
-                               observed=d[:8], expected="only %s" % x["field"])
-            newv = [l.split()[1] for l in blocks[key] if l.split()[:1] == [x["field"]] and len(l.split()) > 1]
+                show = lambda c: ["%s = %s" % (" / ".join(k), v) for (k, v), _n in c.items() if k in bad]
+                raise Mismatch("modify-touches-other", i,
+                               "%s_MODIFY %d %s %s changed quantities it does not name: %s" %
+                               (KW[x["kind"]], x["n"], " ".join("%s %s" % p for p in x.get("sel", [])) or x.get("section", ""), x["field"],
+                                [" / ".join(k) for k in bad[:5]]),
+                               observed={"before": show(before)[:8], "after": show(after)[:8]}, expected="only the named quantity changes")
+            tkey = mod_target(x)
+            newv = [v for (k, v), _n in after.items() if k == tkey]
             ok = False
             for v in newv:
                 try:
@@ -948,9 +1030,65 @@ def check_store(i, where, blocks, dup, mstore, id2fp, fp2id, prev_blocks, prev_m
                 except ValueError:
                     ok = ok or v == str(x["value"])
             if not ok:
-                raise Mismatch("modify-not-applied", i, "%s_MODIFY %d: %s is not %s afterwards" % (KW[x["kind"]], x["n"], x["field"], x["value"]),
+                raise Mismatch("modify-not-applied", i, "%s_MODIFY %d: %s is not %s afterwards" % (KW[x["kind"]], x["n"], " / ".join(tkey), x["value"]),
                                observed=newv[:4], expected=x["value"])
             stats["modify_checked"] = stats.get("modify_checked", 0) + 1
+            if x.get("section"):
+                stats["modify_totals_checked"] = stats.get("modify_totals_checked", 0) + 1
+
+
+SELECTORS = ("-component", "-comp", "-solid_solution", "-charge_component")
+
+
+def entries(lines):
+    """DUMP block -> multiset of ((path..., name), value): the path is the chain of enclosing option lines
+    (by indentation; `-component X` style lines keep their argument), so that every stored quantity has
+    an address that does not depend on the order in which components are written"""
+    from collections import Counter
+    out, stack = Counter(), []
+    for l in lines:
+        s = l.strip()
+        if not s or s.startswith("#"):
+            continue
+        ind = len(l) - len(l.lstrip())
+        while stack and stack[-1][0] >= ind:
+            stack.pop()
+        toks = s.split()
+        path = tuple(lbl for _i, lbl in stack)
+        if s.startswith("-") and not re.match(r"^-[\d.]", s):
+            if toks[0] in SELECTORS and len(toks) > 1:
+                label, val = toks[0] + " " + toks[1], ""
+            else:
+                label, val = toks[0], " ".join(toks[1:])
+            out[(path + (label,), val)] += 1
+            stack.append((ind, label))
+        else:
+            out[(path + (toks[0],), " ".join(toks[1:]))] += 1
+    return out
+
+
+def mod_target(x):
+    if x.get("section"):
+        return (x["section"], x["field"])
+    return tuple("%s %s" % p for p in x.get("sel", [])) + (x["field"],)
+
+
+def mod_allows(x, k, before):
+    """may entry address k change when modification x is applied?"""
+    if k[-1] == "-new_def":
+        return True                    # read_raw(check=false) clears new_def (SURFACE)
+    if x.get("section"):
+        # an element total replaces the valence-state totals of THAT element (and vice versa) and rescales
+        # its master activities; nothing else
+        elt = x["field"].split("(")[0]
+        secs = ("-totals", "-activities") if x["section"] == "-totals" else ("-activities",)
+        return len(k) == 2 and k[0] in secs and (k[1] == elt or k[1].startswith(elt + "("))
+    sel = tuple("%s %s" % p for p in x.get("sel", []))
+    if k == sel + (x["field"],):
+        return True
+    if sel and k[:len(sel)] == sel and not any(kk[:len(sel)] == sel for kk, _v in before):
+        return True                    # the named component did not exist: it is created
+    return False
 
 
 P61 = 2305843009213693951
@@ -1090,13 +1228,30 @@ def finding_probe(ctx, stats):
     prepare(hist, None)
     bad = examine({"finding1": hist}, {}, stats)
     for _hid, m in bad:
-        text = "\n".join(x["_text"] for x in hist)
         ctx.violation("C14:range-copy-deferred",
                       "overlapping number ranges defined in one simulation are not successive writes: after `SOLUTION 2-4` then `SOLUTION 0-3` "
                       "solution 4 does not exist (%s)" % m.what,
                       {"kind": "ops", "database": "phreeqc.dat", "category": m.cat, "failing_step": m.step, "ops": strip(hist),
                        "input_text": [x["_text"] for x in hist], "observed": m.observed, "expected": m.expected})
     stats["finding_probe_mismatch"] = len(bad)
+    # FINDING exchange-modify-component (unchanged tree): cxxExchange::read_raw looks the component of
+    # `-component NaX` up with Find_comp(), which compares the name with the ELEMENT names of the components'
+    # totals (Na, X), never with the formula; no component is found, a fresh one holding only the given
+    # fields is appended and Sort_comps() lets it replace the stored one: the component's totals are lost.
+    ex = {"op": "def", "kind": "KExch", "n": 1, "n_end": 1, "id": 9003, "text": "EXCHANGE 1\n NaX 0.01\n CaX2 0.02\n", "tmpl": {"def": 9003}}
+    md = {"op": "mod", "kind": "KExch", "n": 1, "id": 9004, "field": "-la", "value": 0.5, "sel": [("-component", "NaX")],
+          "text": "EXCHANGE_MODIFY 1\n -component NaX\n  -la 0.5\n"}
+    blank = {"react": None, "cells": [], "mixes": [], "copies": [], "delete": None, "dump": False}
+    hist2 = [dict(blank, reads=[ex], order=[0, 1]), dict(blank, reads=[md], order=[0, 1])]
+    prepare(hist2, None)
+    bad2 = examine({"finding2": hist2}, {}, stats)
+    for _hid, m in bad2:
+        ctx.violation("C14:exchange-modify-component",
+                      "EXCHANGE_MODIFY of a component loses that component's totals: after `EXCHANGE 1; NaX 0.01; CaX2 0.02` the block "
+                      "`EXCHANGE_MODIFY 1; -component NaX; -la 0.5` leaves component NaX without Na and X (%s)" % m.what,
+                      {"kind": "ops", "database": "phreeqc.dat", "category": m.cat, "failing_step": m.step, "ops": strip(hist2),
+                       "input_text": [x["_text"] for x in hist2], "observed": m.observed, "expected": m.expected})
+    stats["finding2_probe_mismatch"] = len(bad2)
 
 
 def run(ctx):
